@@ -40,13 +40,16 @@ func tagOf(ps plugin.PluginSet) string {
 type verSide struct {
 	legacy int   // -1 none
 	vers   []int // versioned sets
+	stale  int   // plugin side only: ProtocolVersion left at this value although no legacy Plugins are served (-1: 0)
 }
 
 func parseSide(s string) verSide {
 	// "L<n or ->:v,v,v"
 	a, b, _ := strings.Cut(s, ":")
-	vsd := verSide{legacy: -1}
-	if a != "L-" {
+	vsd := verSide{legacy: -1, stale: -1}
+	if strings.HasPrefix(a, "S") {
+		vsd.stale = atoi(a[1:])
+	} else if a != "L-" {
 		vsd.legacy = atoi(a[1:])
 	}
 	if b != "" {
@@ -61,6 +64,8 @@ func (v verSide) String() string {
 	l := "L-"
 	if v.legacy >= 0 {
 		l = "L" + strconv.Itoa(v.legacy)
+	} else if v.stale >= 0 {
+		l = "S" + strconv.Itoa(v.stale)
 	}
 	var fs []string
 	for _, x := range v.vers {
@@ -95,7 +100,7 @@ func allSides(universe []int) []verSide {
 			if l < 0 && len(vsn) == 0 {
 				continue
 			}
-			out = append(out, verSide{legacy: l, vers: vsn})
+			out = append(out, verSide{legacy: l, vers: vsn, stale: -1})
 		}
 	}
 	return out
@@ -140,6 +145,9 @@ func init() {
 			opts := &plugin.ServeConfig{}
 			if p["gs"] == "1" {
 				opts.GRPCServer = plugin.DefaultGRPCServer
+			}
+			if psd.stale >= 0 {
+				opts.ProtocolVersion = uint(psd.stale) // a handshake version nobody serves any more
 			}
 			if psd.legacy >= 0 {
 				opts.ProtocolVersion = uint(psd.legacy)
@@ -320,16 +328,24 @@ func init() {
 			}
 		},
 		Instances: func(tier string) []explore.Params {
-			universe := []int{1, 2, 3}
-			reps := 3
+			universe := []int{0, 1, 2, 3} // 0 matters: a host or plugin that never set ProtocolVersion offers / announces 0
+			reps := 2
 			if tier == "thorough" {
-				universe = []int{0, 1, 2, 3}
+				universe = []int{0, 1, 2, 3, 4}
 				reps = 6
 			}
 			sides := allSides(universe)
+			psides := append([]verSide(nil), sides...)
+			for _, st := range universe { // plugin only: versioned sets plus a stale, un-served ProtocolVersion
+				for _, s := range sides {
+					if s.legacy < 0 && !contains(s.vers, st) {
+						psides = append(psides, verSide{legacy: -1, vers: s.vers, stale: st})
+					}
+				}
+			}
 			var out []explore.Params
 			for _, h := range sides {
-				for _, pl := range sides {
+				for _, pl := range psides {
 					n := 0
 					for v := range h.set() {
 						if pl.set()[v] {
